@@ -1012,6 +1012,11 @@ func (c *Compiler) compileCall(node *ast.Call) error {
 	if argc > MaxArgs {
 		return fmt.Errorf("compile error: max args limit of %d exceeded (got %d)", MaxArgs, argc)
 	}
+	// In a pipe, the call that is the stage becomes a partial. Calls inside its
+	// function expression and its arguments are ordinary calls.
+	isStage := c.current.pipeActive
+	c.current.pipeActive = false
+	defer func() { c.current.pipeActive = isStage }()
 	if err := c.compile(node.Function()); err != nil {
 		return err
 	}
@@ -1020,7 +1025,7 @@ func (c *Compiler) compileCall(node *ast.Call) error {
 			return err
 		}
 	}
-	if c.current.pipeActive {
+	if isStage {
 		c.emit(op.Partial, uint16(argc))
 	} else {
 		c.emit(op.Call, uint16(argc))
@@ -1029,6 +1034,10 @@ func (c *Compiler) compileCall(node *ast.Call) error {
 }
 
 func (c *Compiler) compileObjectCall(node *ast.ObjectCall) error {
+	// As in compileCall: only the stage itself becomes a partial
+	isStage := c.current.pipeActive
+	c.current.pipeActive = false
+	defer func() { c.current.pipeActive = isStage }()
 	if err := c.compile(node.Object()); err != nil {
 		return err
 	}
@@ -1049,7 +1058,7 @@ func (c *Compiler) compileObjectCall(node *ast.ObjectCall) error {
 			return err
 		}
 	}
-	if c.current.pipeActive {
+	if isStage {
 		c.emit(op.Partial, uint16(len(args)))
 	} else {
 		c.emit(op.Call, uint16(len(args)))
